@@ -11,6 +11,25 @@ PKG[C19-2]=libraries/doltcore/doltdb; TESTS[C19-2]="./libraries/doltcore/doltdb/
 PKG[C29]=libraries/doltcore/merge; TESTS[C29]="./libraries/doltcore/merge/"
 PKG[C46]=libraries/doltcore/doltdb; TESTS[C46]="./libraries/doltcore/doltdb/"
 PKG[C23]=libraries/doltcore/sqle/enginetest; TESTS[C23]="./libraries/doltcore/sqle/dsess/"
+PKG[C06]=store/nbs; TESTS[C06]="./store/nbs/"
+PKG[C07]=store/nbs; TESTS[C07]="./store/nbs/"
+PKG[C09-1]=store/datas; TESTS[C09-1]="./store/datas/ ./store/types/"
+PKG[C09-2]=store/prolly/message; TESTS[C09-2]="./store/prolly/message/"
+PKG[C10]=store/nbs; TESTS[C10]="./store/nbs/"
+PKG[C13]=store/prolly; TESTS[C13]="./store/prolly/"
+PKG[C16]=store/prolly/tree; TESTS[C16]="./store/prolly/tree/"
+PKG[C18]=store/datas; TESTS[C18]="./store/datas/"
+PKG[C20]=store/datas; TESTS[C20]="./store/datas/"
+PKG[C25]=libraries/doltcore/sqle/enginetest; TESTS[C25]="./libraries/doltcore/merge/"
+PKG[C27]=libraries/doltcore/sqle/enginetest; TESTS[C27]="./libraries/doltcore/sqle/index/"
+PKG[C31]=libraries/doltcore/sqle/enginetest; TESTS[C31]="./libraries/doltcore/rebase/"
+PKG[C32]=libraries/doltcore/sqle/enginetest; TESTS[C32]="./libraries/doltcore/sqle/sqlfmt/"
+PKG[C35-1]=store/datas; TESTS[C35-1]="./store/datas/"
+PKG[C35-2]=libraries/doltcore/remotesrv; TESTS[C35-2]="./libraries/doltcore/remotesrv/"
+PKG[C39]=libraries/doltcore/remotesrv; TESTS[C39]="./libraries/doltcore/remotesrv/"
+PKG[C40]=libraries/doltcore/sqle/binlogreplication; TESTS[C40]="./libraries/doltcore/sqle/kvexec/"
+PKG[C42]=store/blobstore; TESTS[C42]="./store/chunks/"
+PKG[C47]=libraries/doltcore/sqle; TESTS[C47]="./libraries/doltcore/sqle/dsess/"
 mode=$1; shift
 for s in "$@"; do
   p=${s%-*}
@@ -19,7 +38,7 @@ for s in "$@"; do
     mkdir -p work/seedtest/$s; mv work/seedtest/*.json work/seedtest/$s/ 2>/dev/null
   else
     k=$s; [ -z "${PKG[$k]:-}" ] && k=$p
-    lib/seedconfirm.sh seeded/$s ${PKG[$k]} 'TestSeed|TestC19Seed|TestC44' ${TESTS[$k]} > work/seedlogs/confirm_$s.log 2>&1
+    lib/seedconfirm.sh seeded/$s ${PKG[$k]} 'TestSeed|TestC[0-9]+Seed|TestC44|TestDemoC|TestC[0-9]+[A-Z]' ${TESTS[$k]} > work/seedlogs/confirm_$s.log 2>&1
   fi
 done
 echo done >> work/seedlogs/${mode}_all_done
